@@ -35,6 +35,9 @@ Inductive shape :=
 | NotHash
   (* the iterator is returned to the caller; every call of that fn is a site of its own (kind "call") *)
 | ReturnedIterator
+  (* the container is Debug-printed only in the message of a panic! that reports an internal bug; a run that
+     does not panic (property C04) prints nothing here *)
+| BugPanicMessage
   (* entries are inserted, in iteration order, into an ordered map (BTreeMap) whose in-order contents are used *)
 | CollectOrdered
   (* entries are pushed to a Vec that is sorted by key before it is used *)
@@ -59,6 +62,7 @@ Inductive shape :=
 Definition shape_eqb (a b : shape) : bool :=
   match a, b with
   | Unclassified, Unclassified | NotHash, NotHash | ReturnedIterator, ReturnedIterator
+  | BugPanicMessage, BugPanicMessage
   | CollectOrdered, CollectOrdered | CollectThenSort, CollectThenSort | SortedByRenderer, SortedByRenderer
   | AnyAll, AnyAll | CommFold, CommFold | MinByTotalKey, MinByTotalKey | CollectHash, CollectHash
   | EmitInIterationOrder, EmitInIterationOrder | FirstErrorWins, FirstErrorWins
@@ -69,7 +73,7 @@ Definition shape_eqb (a b : shape) : bool :=
 (* which shapes are claimed to be invariant under permutation of the iteration.  [Unclassified] is not. *)
 Definition order_safe (sh : shape) : bool :=
   match sh with
-  | NotHash | ReturnedIterator | CollectOrdered | CollectThenSort | SortedByRenderer
+  | NotHash | ReturnedIterator | BugPanicMessage | CollectOrdered | CollectThenSort | SortedByRenderer
   | AnyAll | CommFold | MinByTotalKey | CollectHash => true
   | Unclassified | EmitInIterationOrder | FirstErrorWins | MinByKeyFirstWins => false
   end.
@@ -159,6 +163,7 @@ Definition consumer (p : params) (sh : shape) (l : list entry) : obs :=
   | Unclassified => OList (map (render p) l)       (* nothing is known: assume the worst *)
   | NotHash => ONone
   | ReturnedIterator => ONone
+  | BugPanicMessage => ONone
   | CollectOrdered => OList (map (render p) (collect_ordered key_leb l))
   | CollectThenSort => OList (map (render p) (isort key_leb l))
   | SortedByRenderer => OList (map (render p) (isort (span_leb p) l))
